@@ -53,6 +53,47 @@ def _hand_over(arg=None):
         s.pause(getattr(sched._local, 'tid', None) if arg is None else arg)
 
 
+def _hand_over_deep():
+    """_hand_over() for a thread that may be deep inside the parser.  Once it has given up the turn the thread makes NO
+    Python-level call until it is back in the library's frames (C calls and returns only, the turn is polled): another
+    thread may lower the interpreter's recursion limit below this thread's depth meanwhile, and the RecursionError that
+    follows belongs to the library's next call, not to the scheduler half-way through releasing its lock."""
+    import time
+    s = getattr(sched._local, 'sched', None)
+    if s is None:
+        return
+    tid = getattr(sched._local, 'tid', None)
+    acquire, release, sleep, now = s.cv.acquire, s.cv.release, time.sleep, time.monotonic
+    discard = s.waiting.discard
+    diverged, failure = sched.ScheduleDiverged, sched.MachineryError
+    acquire()
+    try:
+        if s.holder != tid:
+            s._fail('thread %s reached a pause point inside the parser without holding the turn (holder %s)' % (tid, s.holder))
+            raise s.error
+        s.holder = None
+        s.waiting.add(tid)
+        s._grant_next()
+    except BaseException:
+        release()
+        raise
+    while True:          # the lock is held here
+        if s.holder == tid:
+            discard(tid)
+            release()
+            return
+        err, div, late = s.error, s.diverged, now() > s.deadline
+        release()
+        if err is not None:
+            raise err
+        if div:
+            raise diverged(div)
+        if late:
+            raise failure('scheduler: a thread paused inside the parser waited too long for its turn')
+        sleep(0.0005)
+        acquire()
+
+
 def register():
     """cpause(int) / cyield(): pure, hence folded = called while the statement is compiled; ypoint(): per row"""
     from beanquery import query_compile, query_env
@@ -533,6 +574,16 @@ class ParserPauses:
             _hand_over()
 
 
+def _headroom(frames=120):
+    """is the stack of this thread at least `frames` away from the recursion limit?  (a statement nested too deep for the
+    parser ends in RecursionError; the hand-over must not be what raises it, half-way through the scheduler)"""
+    try:
+        sys._getframe(max(sys.getrecursionlimit() - frames, 1))
+    except ValueError:        # "call stack is not deep enough"
+        return True
+    return False
+
+
 def _on_start(code, offset):
     st = getattr(_ptl, 'state', None)
     if st is None:
@@ -544,8 +595,10 @@ def _on_start(code, offset):
     if st.inside:
         st.count += 1
         while st.done < len(st.places) and st.places[st.done] <= st.count:
+            if not _headroom():
+                return        # too close to the interpreter's recursion limit to run the scheduler here: taken at a later call
             st.done += 1
-            _hand_over()
+            _hand_over_deep()
 
 
 def _on_return(code, offset, retval):
